@@ -43,7 +43,8 @@ RULE = ("target ADMGs with 2-5 nodes x 1-2 domains (selection diagram = the targ
         "(unconditional) or outcome / condition lists (conditional); a structured SINGLE-WORLD stream (2-3 intervened variables "
         "joined by a directed path, e.g. X1->X2->W->Y, X1->Y, all event variables in the same world, 1-3 outcomes that are "
         "ancestors of one another, 1-2 domains; outside every known-finding class, so every answer is judged by the value "
-        "oracle); the worked examples of Correa et al. 2022 as corpus; "
+        "oracle); a stream of source domains whose graph lacks a bidirected edge of the target (trichotomy clause only); "
+        "the worked examples of Correa et al. 2022 as corpus; "
         "plus a malformed stream for every class of the validators. A case is non-trivial when validation passes, the graph "
         "has >=3 nodes and some event variable has a subscript.")
 ASSUMPTIONS = [
@@ -52,10 +53,14 @@ ASSUMPTIONS = [
     "the models of SIMPLIFY, counterfactual ancestors, ctf-factors and IDENTIFY are the `ctf` / `tian` families' (C19, C17); "
     "Algorithm 3's derivation of D* and its line 4 are parameters of the model (only its validator and its call of "
     "Algorithm 2 are modelled); the conditional procedure is covered by the oracle on the real code",
-    "ctf_no_internal_error is OPEN and false of the current code (three crash findings); the trichotomy theorems say that an "
-    "accepted input ends in answer / FAIL / non-validation error, the oracle reports every such error",
+    "ctf_no_internal_error: false of the current code on four crash classes (known findings); PROVED for the unconditional "
+    "procedure outside them (ctfTRu_no_internal_error_partial: validated input, no self-intervened variable together with a "
+    "valueless variable, plain event variables as built by the public wrapper, every domain graph keeps the target's "
+    "bidirected edges between non-policy variables and has no bidirected edge at a selection node => answer or FAIL, no "
+    "error); OPEN for Algorithm 3 (its derivation of D* and line 4 are parameters of the model); the oracle reports "
+    "every exception after validation",
     "failures on inputs with the syntactic signature of an open finding AND its kind of outcome (wrong value / wrong zero / "
-    "exception class at a named check) are attributed to that finding by class key (16 keys; signature computed on the "
+    "exception class at a named check) are attributed to that finding by class key (17 keys; signature computed on the "
     "minimised query with the harness's own graph code); a different defect that only shows on such inputs with the same "
     "kind of outcome would be masked in the conditional procedure (the unconditional one is also tied to the model)",
     "oracle model class: discrete variables, positive rational parameters, independent root latents per bidirected edge, one "
@@ -241,6 +246,22 @@ def _single_world_case(rng):
               stream="single_world")
 
 
+def _dropped_bi_case(rng):
+    """a source domain whose graph lacks a bidirected edge of the target (the validators compare a domain graph with the
+    target only when the domain IS the target; Correa et al.'s figure 1 has such a domain).  Only the trichotomy clause is
+    judged on these cases: the oracle's domain models are built from the target graph."""
+    while True:
+        c = _rand_case(rng, 4)
+        if c["kind"] == "uncond" and c["g"]["bi"] and c["domains"]:
+            break
+    k = rng.randrange(len(c["domains"]))
+    e = rng.choice(c["g"]["bi"])
+    c["domains"][k]["drop_bi"] = [sorted(e)]
+    c["domains"][k]["cut"] = []
+    c["stream"] = "dropped_bi"
+    return c
+
+
 def _marks_only_domains(rng, nodes):
     """two source domains with selection nodes only (no policies): every district is usually transportable from one"""
     doms = []
@@ -303,6 +324,8 @@ def cases(rng: random.Random, tier: str):
     n_sw = {"quick": 3000, "escalated": 8000}.get(tier, 30000)
     for _ in range(n_sw):
         out.append(_single_world_case(rng))
+    for _ in range(n_sw // 10):
+        out.append(_dropped_bi_case(rng))
     for _ in range(n_rand):
         out.append(_rand_case(rng, 5 if rng.random() < 0.3 else 4))
     for _ in range(n_mal):
@@ -326,8 +349,9 @@ def _y0_var(v):
 def domain_graph_dict(g, d, malformed=None):
     nodes = G.all_nodes(g)
     cut = set(d.get("cut", []))
+    drop = {tuple(sorted(e)) for e in d.get("drop_bi", [])}
     di = [e for e in g["di"] if e[1] not in cut] + [[200 + t, t] for t in d["tmarks"]]
-    bi = [e for e in g["bi"] if e[0] not in cut and e[1] not in cut]
+    bi = [e for e in g["bi"] if e[0] not in cut and e[1] not in cut and tuple(sorted(e)) not in drop]
     if malformed == "extra_vertex":
         nodes = nodes + [95]
     return {"nodes": nodes, "di": di, "bi": bi}
@@ -510,7 +534,7 @@ def _digest(case, enc):
 
 
 def _in_quantifier(case):
-    return "malformed" not in case
+    return "malformed" not in case and not any(d.get("drop_bi") for d in case["domains"])
 
 
 def run_python(case):
@@ -711,6 +735,8 @@ def _shrink_candidates(case):
         for d in c["domains"]:
             for k in ("tmarks", "policy", "cut"):
                 d[k] = [v for v in d[k] if v in live]
+            if d.get("drop_bi"):
+                d["drop_bi"] = [e for e in d["drop_bi"] if sorted(e) in [sorted(x) for x in gg["bi"]]]
         if all(c.get(k, [1]) for k in ("event", "outcomes", "conditions") if k in c):
             yield c
     if len(case["domains"]) > 1:
@@ -773,6 +799,8 @@ def signature(case):
                      components store ||Y_x|| computed in the graph whose edges out of the conditioned ancestors are cut;
                      miss = raw name differs from the stored one (for all / for some outcomes)
       has_none       some variable has no value
+      simplify_risk  a self-intervened variable Y_y and a valueless variable with the same name Y
+      domain_drops_bi  a domain graph lacks a bidirected edge of the target (Algorithm 4's ValueError)
     """
     g = case["g"]
     outs = (case.get("event") or []) + (case.get("outcomes") or [])
@@ -808,9 +836,14 @@ def signature(case):
             W, S = _raw(v)
             cx = {c[0] for c in minc if c in _ctf_ancestors(di, W, S)}
             miss.append((W, S) not in _ctf_ancestors([e for e in di if e[0] not in cx], W, S))
+    refl_names = {int(v[1]) for v in vars_ if any(int(z) == int(v[1]) for z, _ in v[4])}
     return {"reflexive": reflexive, "two_values": two_values, "multi_world": multi_world, "literal_bound": literal_bound,
             "has_none": any(v[2] == "n" for v in vars_), "miss_all": bool(miss) and all(miss),
-            "miss_some": any(miss) and not all(miss)}
+            "miss_some": any(miss) and not all(miss),
+            # SIMPLIFY's TypeError needs a self-intervened Y_y TOGETHER WITH a valueless variable of the same name
+            # (Lean: CtfTr.SimplifyRisk, `simplify_no_error_outside_risk`)
+            "simplify_risk": any(v[2] == "n" and int(v[1]) in refl_names for v in vars_),
+            "domain_drops_bi": any(d.get("drop_bi") for d in case["domains"])}
 
 
 _CRASH = "after the procedure's own validation accepted"
@@ -833,8 +866,11 @@ def finding_key(case, res):
               and "at _validate_transport_conditional_counterfactual_query_line_4_output:" in fail and miss):
             cls = "crash:ctfTR-final-check"
         elif (fail.startswith("TypeError (") and "at _any_variables_with_inconsistent_values:" in fail
-              and sig["reflexive"] and sig["has_none"]):
+              and sig["simplify_risk"]):
             cls = "crash:simplify-typeerror"
+        elif (fail.startswith("ValueError (") and "at transport_district_intervening_on_parents:" in fail
+              and sig["domain_drops_bi"]):
+            cls = "crash:sigmaTR-district-split"
     elif fail.startswith("returned Zero()"):
         if sig["reflexive"]:
             cls = "zero:reflexive"
@@ -860,7 +896,7 @@ MANIFEST = {
     "text": ("Partial. Lean theorems about the model Y0.Model.CtfTr of api.py (validators of ctfTRu / ctfTR as decision "
              "functions, Algorithm 4, Algorithm 2 composed from the `ctf` family's models of SIMPLIFY / counterfactual "
              "ancestors / ctf-factors and the `tian` family's model of IDENTIFY; Algorithm 3 with its bookkeeping steps as "
-             "parameters), 20 theorems in Props/C09: the validators reject with the documented classes only and an accepted "
+             "parameters), 31 theorems in Props/C09: the validators reject with the documented classes only and an accepted "
              "input has the stated shape (validateU_error_class, validateC_error_class, validateU_accepts, validateC_strict); "
              "an 'invalid input' outcome is exactly a rejection by the procedure's own validator and an accepted input is "
              "answered, refused, or ends in a non-validation error (ctfTRu_invalid_iff, ctfTRu_trichotomy, "
@@ -868,10 +904,14 @@ MANIFEST = {
              "without a self-intervened variable - the event has probability 0 in every compatible functional SCM "
              "(ctfTRu_zero_only_from_simplify, ctfTRu_zero_of_simplify, ctf_zero_sound_partial via C19); the returned event is "
              "SIMPLIFY's output and every ctf-factor is transported from a domain with no policy variable and no selection "
-             "node on its district (ctfTRu_event_is_simplified, sigmaTR_uses_usable_domain, transportFactors_all). NOT "
-             "proved, and FALSE of the current code on the inputs of the 16 open findings (known_findings.jsonl, class keys "
+             "node on its district (ctfTRu_event_is_simplified, sigmaTR_uses_usable_domain, transportFactors_all); outside the "
+             "known crash classes the unconditional procedure never raises (ctfTRu_no_internal_error_partial with "
+             "simplify_no_error_outside_risk, line2_total, sigmaTRDomain_no_error, transportFactors_no_error), and an "
+             "expression returned by Algorithm 4 denotes Q[district] of the domain's model (sigmaTR_sound, via C17 "
+             "cfactor_sound / tian_sound). NOT "
+             "proved, and FALSE of the current code on the inputs of the 17 open findings (known_findings.jsonl, class keys "
              "with minimal witnesses): the value clause (ctfTRu_sound / ctfTR_sound) and the absence of non-validation errors "
-             "(ctf_no_internal_error). These clauses are decided on every run by the correspondence (validators exact; "
+             "(ctf_no_internal_error in full: Algorithm 3, and the four crash classes). These clauses are decided on every run by the correspondence (validators exact; "
              "Algorithm 2: verdict, simplified event and exact value of the expression) and by the exact functional-SCM "
              "oracle (noise-space enumeration of P*(event), policies as fresh mechanisms): trichotomy, zero-soundness and "
              "value on every answered case."),
